@@ -50,7 +50,9 @@ def extract_c08(repo):
 def run(pid, cfg, repo, verif):
     out = {"summary": {}, "obligations": 0, "discharged": 0, "cmd": "", "undecided": [], "violations": []}
     if cfg == "lemmas":
-        return run_lemmas(verif, out)
+        return run_lemmas(verif, out, "lemma_loops.rs", "while rule for MUL and DIV over the per-pass contracts, rank => bounded return, MUL word-count bound (spec-only, no repository code)")
+    if cfg == "lemmas_compose":
+        return run_lemmas(verif, out, "lemma_compose.rs", "interrupt entry ; register-preserving handler ; RETI restores registers/flags/SP/PC (over the entry and RETI contracts); address counter = concatenation offset; relative offset lands on its target (spec-only, no repository code)")
     if cfg != "c08":
         return out
     t0 = time.time()
@@ -102,11 +104,11 @@ def run(pid, cfg, repo, verif):
     return out
 
 
-def run_lemmas(verif, out):
+def run_lemmas(verif, out, fname, what):
     """Spec-only composition lemmas over the contracts (no repository code): while rule for MUL/DIV,
     rank => bounded return, MUL word-count bound."""
     t0 = time.time()
-    f = os.path.join(verif, "verus", "lemma_loops.rs")
+    f = os.path.join(verif, "verus", fname)
     base = os.environ.get("VERIF_SCRATCH") or os.environ.get("TMPDIR") or "/var/tmp"
     d = tempfile.mkdtemp(prefix="verif-verus.", dir=base)
     try:
@@ -118,10 +120,9 @@ def run_lemmas(verif, out):
             js = None
         res = (js or {}).get("verification-results", {})
         verified, errors = res.get("verified", 0), res.get("errors", 0)
-        out["cmd"] = "verus verus/lemma_loops.rs --output-json --time"
-        out["summary"] = {"backend": "verus", "file": "verus/lemma_loops.rs", "lemmas_verified": verified, "errors": errors,
-                          "wall_s": round(time.time() - t0, 1),
-                          "what": "while rule for MUL and DIV over the per-pass contracts, rank => bounded return, MUL word-count bound (spec-only, no repository code)"}
+        out["cmd"] = "verus verus/%s --output-json --time" % fname
+        out["summary"] = {"backend": "verus", "file": "verus/" + fname, "lemmas_verified": verified, "errors": errors,
+                          "wall_s": round(time.time() - t0, 1), "what": what}
         if res.get("success") and errors == 0 and verified > 0:
             out["obligations"] = verified
             out["discharged"] = verified
